@@ -502,13 +502,13 @@ Print Assumptions c05_code_call_try_response.
     reading of it) and proved EQUAL to the model's bridge on whatever the parser model returns (proofs/Gen2_equiv_parser.v). *)
 From Hoot.proofs Require Import Gen2_equiv_parser.
 Theorem c05_code_try_parse_response : forall slots input,
-  gen_try_parse_response (hp_of (fst (parse_response slots input))) (hv_version (snd (parse_response slots input)))
+  gen_try_parse_response input (hp_of (fst (parse_response slots input))) (hv_version (snd (parse_response slots input)))
     (hv_code (snd (parse_response slots input))) (hv_headers (snd (parse_response slots input)))
   = try_parse_response slots input.
 Proof. exact gen_try_parse_response_eq. Qed.
 Print Assumptions c05_code_try_parse_response.
 Theorem c05_code_try_parse_partial_response : forall slots input,
-  gen_try_parse_partial_response (hp_of (fst (parse_response slots input))) (hv_version (snd (parse_response slots input)))
+  gen_try_parse_partial_response input (hp_of (fst (parse_response slots input))) (hv_version (snd (parse_response slots input)))
     (hv_code (snd (parse_response slots input))) (hv_headers (snd (parse_response slots input)))
   = try_parse_partial_response slots input.
 Proof. exact gen_try_parse_partial_response_eq. Qed.
